@@ -182,11 +182,11 @@ func ensuresRange(P *core.Program, fn *ssa.Function, p *ssa.Parameter, field str
 
 // invokesValidator: entry cannot report success without a successful call of validator on
 // the given field of its receiver (inside a loop: each iteration's call gates the iteration).
-func invokesValidator(P *core.Program, entry, validator *ssa.Function, field string) (bool, string) {
+func invokesValidator(P *core.Program, entry *ssa.Function, validatorKey string, field string) (bool, string) {
 	ff := P.Facts(entry)
 	var calls []ssa.CallInstruction
 	for _, c := range core.Calls(entry) {
-		if sc := c.Common().StaticCallee(); sc != nil && P.Key(sc) == P.Key(validator) {
+		if !c.Common().IsInvoke() && P.CalleeKey(c.Common()) == validatorKey {
 			calls = append(calls, c)
 		}
 	}
@@ -244,7 +244,30 @@ func CheckRangeEnforced(P *core.Program, R *core.Report, rule string) {
 			R.Add(rule, ri.Entry, "invokes "+ri.Validator, "-", false, "unresolved anchor")
 			continue
 		}
-		ok, why := invokesValidator(P, en, va, ri.Field)
+		ok, why := invokesValidator(P, en, ri.Validator, ri.Field)
 		R.Add(rule, ri.Entry, "invokes "+ri.Validator, P.Pos(en.Pos()), ok, ri.Why+". "+why)
+	}
+}
+
+// Coin lists carried by user messages (DESIGN §10.11, finding F-05b).  sdk.Coins arithmetic
+// (Sub, Add, AmountOf, IsAnyGT) silently assumes a sorted list without duplicate denoms; a
+// message field of type []sdk.Coin that the keeper uses as such a set must be validated AS A
+// SET (sdk.Coins.Validate) before the handler runs — validating each coin alone lets
+// [100 uusdt, 1000 uusdt] through, and the join is then priced from one entry and charged
+// from the merged list.
+var coinSetFields = []rangeInvoke{
+	{"x/amm/types.MsgJoinPool.ValidateBasic", "github.com/cosmos/cosmos-sdk/types.Coins.Validate", "MaxAmountsIn",
+		"JoinPoolNoSwap computes shares and the coins to charge with sdk.Coins set arithmetic on this list"},
+}
+
+func CheckCoinSetValidated(P *core.Program, R *core.Report, rule string) {
+	for _, ri := range coinSetFields {
+		en := P.Fn(ri.Entry)
+		if en == nil {
+			R.Add(rule, ri.Entry, "validates "+ri.Field+" as a coin set", "-", false, "unresolved anchor")
+			continue
+		}
+		ok, why := invokesValidator(P, en, ri.Validator, ri.Field)
+		R.Add(rule, ri.Entry, "validates "+ri.Field+" as a coin set", P.Pos(en.Pos()), ok, ri.Why+". "+why)
 	}
 }
